@@ -642,6 +642,7 @@ pub const DAMAGE_OPS: &[&str] = &[
     "alias_cycle",
     "nest_element",
     "non_ascii_number",
+    "degenerate_markup",
 ];
 
 /// byte ranges of all tags `<...>` (document produced by the emitter: no '>' inside attribute values)
@@ -988,6 +989,17 @@ pub fn damage(r: &mut Rng, doc: &[u8], op: usize, sys: u64) -> (Vec<u8>, &'stati
                     }
                     d = out;
                 }
+            }
+        }
+        "degenerate_markup" => {
+            // a comment / CDATA / DOCTYPE / PI of minimal or overlapping form directly behind a tag
+            // (also behind the start tag of a text-valued element) or directly in front of one
+            if !ts.is_empty() {
+                let t = ts[(sys as usize) % ts.len()];
+                let pos = if r.chance(2, 3) { t.1 } else { t.0 };
+                at = pos;
+                let ins: &[u8] = *r.pick(&[&b"<!-->"[..], b"<!--->", b"<!---->", b"<!--> x -->", b"<![CDATA[]]>", b"<![CDATA[>]]>", b"<!DOCTYPE>", b"<!>", b"<?>", b"<??>", b"<!-- -- -->", b"<!--x--!>", b"<![CDATA[x]]]]>"]);
+                d.splice(pos..pos, ins.iter().cloned());
             }
         }
         "non_ascii_number" => {
